@@ -158,6 +158,24 @@ Definition pair_demanded (p : plat) (meth site1 site2 : string) (e1 e2 : err) (s
 Definition pair_known (p : plat) (meth site1 site2 : string) (e1 e2 : err) (s : pstate) (z : bool) : bool :=
   known_class p meth site1 (Build_cond e1 s z) || known_class p meth site2 (Build_cond e2 s z).
 
+(* every native call of the method fails with the same error: no second route can succeed; what remains
+   of the fall-backs are those that decide from the process listing alone *)
+Definition recovery_nocall (p : plat) (meth site : string) (c : cond) : option res :=
+  let e := c_err c in
+  match p with
+  | NetBSD => if g_netbsd_cmdline meth site && is_einval e then
+                Some (match c_state c with Zombie => RZombie | Gone => RNoSuch | Alive => RVal end)
+              else None
+  | AIX => if g_aix_io meth site && negb (listed (c_state c)) then Some RNoSuch else None
+  | Windows => if is_partial e && g_win_partial meth then Some RDenied else None
+  | _ => None
+  end.
+Definition all_demanded (p : plat) (meth site : string) (c : cond) : option res :=
+  match recovery_nocall p meth site c with
+  | Some r => Some r
+  | None => contract p meth site c
+  end.
+
 (* ERROR_PARTIAL_COPY k times, then success or another error: 33 attempts, then AccessDenied *)
 Definition retry_demanded (meth site : string) (k : Z) (then_ : option err) (s : pstate) (z : bool) : option res :=
   if g_win_partial meth then
@@ -244,6 +262,10 @@ Definition environ_l : dlayout := tuple "dict" [("key", C "proc_environ" 0); ("v
 Definition pconn_l (fn : string) (status_from : list Z) : dlayout :=
   listof "pconn" [("fd", C fn 0); ("family", DFun fn [1]); ("type", DFun fn [2]); ("laddr", DFun fn [3]);
                   ("raddr", DFun fn [4]); ("status", DFun fn status_from)].
+(* system-wide net_connections(): sconn = the pconn fields + pid, the 7th slot of the native row *)
+Definition sconn_l (fn : string) (status_from : list Z) : dlayout :=
+  listof "sconn" [("fd", C fn 0); ("family", DFun fn [1]); ("type", DFun fn [2]); ("laddr", DFun fn [3]);
+                  ("raddr", DFun fn [4]); ("status", DFun fn status_from); ("pid", C fn 6)].
 Definition K := "kinfo_proc_map".
 Definition T := "pidtaskinfo_map".
 Definition I := "proc_info_map".
@@ -426,6 +448,14 @@ Definition doc_layout_win (meth variant : string) : option dlayout :=
   else None.
 
 Definition doc_layout (p : plat) (meth variant : string) : option dlayout :=
+  if seq meth "sys:net_connections" then
+    (if seq variant "" then
+       match p with
+       | MacOS => None                                   (* assembled per PID from Process.net_connections() *)
+       | SunOS => Some (sconn_l "net_connections" [5])
+       | _ => Some (sconn_l "net_connections" [2; 5])
+       end
+     else None) else
   match p with
   | FreeBSD | OpenBSD | NetBSD => if seq variant "" then doc_layout_bsd p meth else None
   | MacOS => if seq variant "" then doc_layout_osx meth else None
@@ -453,7 +483,7 @@ Definition doc_deps (p : plat) (meth : string) : option (list (string * string))
 Definition layout_methods : list string :=
   ["ppid"; "create_time"; "name"; "terminal"; "uids"; "gids"; "cpu_times"; "memory_info"; "memory_full_info";
    "num_ctx_switches"; "io_counters"; "threads"; "open_files"; "num_fds"; "nice_get"; "cpu_num"; "num_threads";
-   "num_handles"; "cmdline"; "environ"; "net_connections"; "memory_maps"].
+   "num_handles"; "cmdline"; "environ"; "net_connections"; "memory_maps"; "sys:net_connections"].
 Definition all_plats : list plat := [FreeBSD; OpenBSD; NetBSD; MacOS; SunOS; AIX; Windows].
 Definition doc_keys : list (plat * string * string) :=
   flat_map (fun p => flat_map (fun m => flat_map (fun v =>
